@@ -102,9 +102,19 @@ def join_val(a: Val, b: Val) -> Val:
     ilb = min(a.ilb, b.ilb) if a.ilb is not None and b.ilb is not None else None
     cv = a.cv if (a.cv == b.cv and type(a.cv) is type(b.cv)) else Val.NOCV
     fields = None
-    if a.fields and b.fields:
-        fa, fb = dict(a.fields), dict(b.fields)
-        fields = tuple(sorted(((k, join_val(fa[k], fb[k])) for k in fa if k in fb), key=lambda kv: kv[0])) or None
+    if a.fields or b.fields:
+        fa, fb = dict(a.fields or ()), dict(b.fields or ())
+        out_f = {}
+        for k in set(fa) | set(fb):
+            if k in fa and k in fb:
+                out_f[k] = join_val(fa[k], fb[k])
+            elif not k.startswith("#"):
+                # stored on one branch only: on the other the attribute holds whatever it held before (not tracked) - the join may be that
+                # or this value, so this value's None-ness and taint survive with everything else forgotten
+                v1 = fa.get(k) or fb.get(k)
+                if v1.may_none or v1.taint:
+                    out_f[k] = Val(taint=v1.taint, kind="any", may_none=v1.may_none)
+        fields = tuple(sorted(out_f.items(), key=lambda kv: kv[0])) or None
     return Val(a.taint or b.taint, kind, min(a.lb, b.lb), a.exact if a.exact == b.exact else None,
                a.types | b.types, a.classes | b.classes, elem, ilb, cv, a.kw if a.kw == b.kw else None,
                a.may_none or b.may_none, fields, iub=max(a.iub, b.iub) if a.iub is not None and b.iub is not None else None,
@@ -1305,9 +1315,13 @@ class FnAnalysis(Analysis):
 
     def v_BoolOp(self, e, st):
         out = None
+        cur = st
         for x in e.values:
-            v = self.val(x, st)
+            v = self.val(x, cur)
             out = v if out is None else join_val(out, v)
+            # short circuit: the next operand is evaluated only when this one was true (and) / false (or)
+            cur = cur.copy()
+            self.refine(x, isinstance(e.op, ast.And), cur)
         return out
 
     def v_Compare(self, e, st):
